@@ -29,14 +29,14 @@ RULE = (
 )
 ASSUMPTIONS = [
     "reference model in this file, from docsite/docs/usage/advanced.md (Subclassing) and test_respect_super_init",
-    "not judged: the value visible for init=False attributes, passing the overflow attribute's own name, __post_init__ overrides in plain subclasses",
+    "not judged: the value visible for init=False attributes, passing the overflow attribute's own name",
 ]
 
 
 def GATES(tier):
     return [("constructions_judged", 1500), ("hierarchies", 60), ("handwritten_parent_calls_compared", 200), ("post_init_checked", 300), ("unknown_kw_rejected", 100), ("overflow_collected", 50),
             ("nonconforming_rejected", 100), ("key_positional", 30), ("key_missing_rejected", 10), ("two_parents", 10), ("plain_grandchild", 10), ("spec_grandchild", 10), ("init_false_parent", 5),
-            ("redeclared_attr", 20), ("redefaulted_attr", 20), ("parent_post_init", 10), ("key_redefaulted", 3), ("plain_middle", 5), ("colliding_parents", 20), ("key_default_factory", 8)]
+            ("redeclared_attr", 20), ("redefaulted_attr", 20), ("parent_post_init", 10), ("key_redefaulted", 3), ("plain_middle", 5), ("colliding_parents", 20), ("key_default_factory", 8), ("bare_redeclaration", 10), ("overflow_with_wildcard_dependant", 10), ("plain_subclass_post_init", 10)]
 
 
 class H:
@@ -117,11 +117,19 @@ class H:
             n = inherited.pop()
             c_attrs[n] = {"default": rng.randint(1, 9), "init": True, "annotated": False, "style": "lit"}  # re-defaulted: ownership stays
             self.features.add("redefaulted_attr")
+        gen_inherited = [n for n in inherited if self.classes[self.owner_of_parent_attr(n, two)]["ctor"] == "generated" and n not in c_attrs]
+        if gen_inherited and rng.random() < 0.3:
+            # bare re-declaration (`x: int`): ownership moves to the child, the default it sees is still the parent's
+            n = gen_inherited[0]
+            inherited.remove(n)
+            c_attrs[n] = {"default": None, "init": True, "annotated": True, "style": None, "bare": True}
+            self.features.add("bare_redeclaration")
         if self.classes["A"].get("key") and rng.random() < 0.5:
             # the child merely re-defaults the inherited key (no annotation): the key is then optional for the child
             c_attrs["k"] = {"default": "ck", "init": True, "annotated": False, "style": "lit"}
             self.features.add("key_redefaulted")
         c_attrs.update(new_attrs("c", rng.randint(0, 2), allow_init_false=False))
+        self._star_candidates = [n for n, a in c_attrs.items() if n.startswith("c") and a["default"] is not None]
         c_bases = ["A", "B"] if two else ["A"]
         if not two and rng.random() < 0.3:
             # a plain (undecorated) class between the spec parent and the spec child, re-defaulting one attribute
@@ -138,18 +146,27 @@ class H:
         self.order.append("C")
         if self.classes["C"]["overflow"]:
             self.features.add("overflow")
+            if self._star_candidates and rng.random() < 0.6:
+                # an attribute that any later assignment would reset: nothing assigned during construction does
+                self.classes["C"]["attrs"][self._star_candidates[0]]["style"] = "attr_star"
+                self.features.add("overflow_with_wildcard_dependant")
         r = rng.random()
         if r < 0.3:
             cand = [n for n in self.managed("C") if n not in (self.effective("C", "key")[0], self.effective("C", "overflow")[0]) and self.attr_info("C", n)["init"]]
             over = {rng.choice(cand): {"default": rng.randint(1, 9) + 1000, "init": True, "annotated": False, "style": "lit"}} if cand else {}
-            self.classes["D"] = {"bases": ["C"], "kind": "plain", "attrs": over, "ctor": "inherited", "sigdefs": {}, "key": None, "overflow": None, "post_init": False}
+            self.classes["D"] = {"bases": ["C"], "kind": "plain", "attrs": over, "ctor": "inherited", "sigdefs": {}, "key": None, "overflow": None, "post_init": rng.random() < 0.5}
             self.order.append("D")
             self.features.add("plain_grandchild")
+            if self.classes["D"]["post_init"]:
+                self.features.add("plain_subclass_post_init")
         elif r < 0.55:
             self.classes["D"] = {"bases": ["C"], "kind": "spec", "attrs": new_attrs("d", 1, allow_init_false=False), "ctor": "generated", "sigdefs": {}, "key": None, "overflow": None, "post_init": False}
             self.order.append("D")
             self.features.add("spec_grandchild")
         self.lazy = rng.random() < 0.5
+
+    def owner_of_parent_attr(self, n, two):
+        return next(p for p in (["A", "B"] if two else ["A"]) if n in self.classes[p]["attrs"])
 
     # -- structure -----------------------------------------------------------------------------
     def mro(self, name):
@@ -207,7 +224,13 @@ class H:
             if a is not None and a["default"] is not None:
                 return a["default"]
             if n == owner:
-                return None  # the owner's declaration (without default) is where the search ends: classes behind it in the MRO are shadowed
+                # the owner's declaration is where the search along *this* class's MRO ends (classes behind it are
+                # shadowed); a bare declaration itself took the default visible from the owner's own parents
+                for m in self.mro(owner)[1:]:
+                    a = self.classes[m]["attrs"].get(attr)
+                    if a is not None and a["default"] is not None:
+                        return a["default"]
+                return None
         return None
 
     # -- source -----------------------------------------------------------------------------------
@@ -236,6 +259,8 @@ class H:
                         body.append(f"    {n}: int")
                     elif not a["init"]:
                         body.append(f"    {n}: int = Attr(default={a['default']}, init=False)")
+                    elif a["style"] == "attr_star":
+                        body.append(f"    {n}: int = Attr(default={a['default']}, invalidated_by=['*'])")
                     elif a["style"] == "attr":
                         body.append(f"    {n}: int = Attr(default={a['default']})")
                     elif a["style"] == "factory":
@@ -257,6 +282,7 @@ class H:
             if c.get("post_init"):
                 body.append("    def __post_init__(self):")
                 body.append("        self.__dict__['pi_count'] = self.__dict__.get('pi_count', 0) + 1")
+                body.append(f"        self.__dict__['pi_who'] = self.__dict__.get('pi_who', '') + {name!r}")
                 body.append("        self.__dict__['pi_seen'] = sorted(k for k in self.__dict__ if not k.startswith('pi_') and not k.startswith('__'))")
             if not body:
                 body.append("    pass")
@@ -276,10 +302,9 @@ class H:
         unknown = {k: v for k, v in kw.items() if k not in init_names}
         if unknown and not overflow:
             return ("raise", (TypeError,)), None, None
-        if any(k in managed and k != overflow for k in unknown):
-            if overflow:
-                return ("unspecified", None), None, None  # init=False attribute by keyword on a class with **overflow: not documented
+        if any(k in managed and k != overflow for k in unknown) and not overflow:
             return ("raise", (TypeError,)), None, None  # init=False attribute passed by keyword
+        # (with an overflow attribute a keyword naming an init=False attribute is an unknown keyword like any other)
         if key:
             kd = self.key_default(name, key)
             if key not in kw and kd is None:
@@ -430,9 +455,11 @@ def run(ctx, params):
                     elif seen_calls[owner][0] != recv:
                         ctx.violation("parent_constructor_arguments", f"{label}: hand-written {owner}.__init__ received {seen_calls[owner][0]}, the model says {recv}", features=feats, case=case, source=src)
                 # __post_init__ exactly once, after all attributes are set
-                pc, _ = h.effective(h.spec_owner_class(cname), "post_init")
+                pc, pc_owner = h.effective(cname, "post_init")  # the nearest definition along the instance's own MRO
                 if pc:
                     ctx.count("post_init_checked")
+                    if inst.__dict__.get("pi_count") == 1 and inst.__dict__.get("pi_who") != pc_owner:
+                        ctx.violation("post_init_once", f"{label}: the __post_init__ that ran is {inst.__dict__.get('pi_who')}'s, the instance's class resolves it to {pc_owner}'s", features=feats, case=case, source=src)
                     if inst.__dict__.get("pi_count") != 1:
                         ctx.violation("post_init_once", f"{label}: __post_init__ ran {inst.__dict__.get('pi_count', 0)} times", features=feats, case=case, source=src)
                     else:
